@@ -230,6 +230,152 @@ theorem finalList_diag (c : Cfg) (s : St) :
   simp only [List.mem_append, List.mem_reverse] at ht
   exact ht
 
+/-! ### clipping never grows a trapezoid vertically (arbitrary letters, `maxIGap ≥ 1`) -/
+
+/-- The scan of `clipVertical` over one trapezoid with rows `[B0, T0]`: the piece being scanned keeps
+    its top and never lowers its bottom; every piece split off lies within `[B0, T0]`.  `last` is
+    the end of the scan (`≤ T0 + maxIGap`), `lag0` its start (`≥ B0 - maxIGap + 1`). -/
+theorem cvLoop_rows (c : Cfg) (B0 T0 lag0 last : Int) (hlast : last ≤ T0 + c.maxIGap)
+    (hlag0 : B0 - c.maxIGap + 1 ≤ lag0) :
+    ∀ (n : Nat) (pos lag : Int) (base : Trap) (out : List Trap),
+      ((n : Int) ≤ last - pos ∨ n = 0) → lag0 ≤ lag → lag ≤ pos →
+      base.top = T0 → B0 ≤ base.bottom → (∀ p ∈ out, B0 ≤ p.bottom ∧ p.top ≤ T0) →
+      let r := cvLoop c n pos lag base out
+      r.1 = pos + n ∧ lag0 ≤ r.2.1 ∧ r.2.1 ≤ r.1 ∧ r.2.2.1.top = T0 ∧ B0 ≤ r.2.2.1.bottom ∧
+      ∀ p ∈ r.2.2.2, B0 ≤ p.bottom ∧ p.top ≤ T0 := by
+  intro n
+  induction n with
+  | zero =>
+    intro pos lag base out _ hl0 hlp ht hb ho
+    simp only [cvLoop]
+    exact ⟨by omega, hl0, hlp, ht, hb, ho⟩
+  | succ n ih =>
+    intro pos lag base out hn hl0 hlp ht hb ho
+    have hn' : ((n + 1 : Nat) : Int) ≤ last - pos := by
+      rcases hn with h | h
+      · exact h
+      · omega
+    have hnext : ((n : Int) ≤ last - (pos + 1) ∨ n = 0) := Or.inl (by omega)
+    have e : pos + 1 + (n : Int) = pos + ((n + 1 : Nat) : Int) := by omega
+    unfold cvLoop
+    split
+    · split
+      · rename_i hcut
+        split
+        · have h := ih (pos + 1) (pos + 1) { base with bottom := pos } ({ base with top := lag } :: out) hnext
+            (by omega) (Int.le_refl _) ht (by simp only []; omega) (by
+              intro p hp
+              rcases List.mem_cons.mp hp with e' | e'
+              · subst e'; simp only []; exact ⟨hb, by omega⟩
+              · exact ho p e')
+          simp only [] at h ⊢
+          rw [e] at h; exact h
+        · have h := ih (pos + 1) (pos + 1) { base with bottom := pos } out hnext
+            (by omega) (Int.le_refl _) ht (by simp only []; omega) ho
+          simp only [] at h ⊢
+          rw [e] at h; exact h
+      · have h := ih (pos + 1) (pos + 1) base out hnext (by omega) (Int.le_refl _) ht hb ho
+        simp only [] at h ⊢
+        rw [e] at h; exact h
+    · have h := ih (pos + 1) lag base out hnext hl0 (by omega) ht hb ho
+      simp only [] at h ⊢
+      rw [e] at h; exact h
+
+theorem clipVertical1_rows (c : Cfg) (hg : 1 ≤ c.maxIGap) (base : Trap) :
+    ∀ p ∈ clipVertical1 c base, base.bottom ≤ p.bottom ∧ p.top ≤ base.top := by
+  intro p hp
+  unfold clipVertical1 at hp
+  simp only [] at hp
+  generalize hl0 : (if base.bottom - c.maxIGap + 1 < 0 then (0 : Int) else base.bottom - c.maxIGap + 1) = lag0 at hp
+  generalize hl1 : (if base.top + c.maxIGap > c.qlen then c.qlen else base.top + c.maxIGap) = last at hp
+  have h0 : base.bottom - c.maxIGap + 1 ≤ lag0 := by rw [← hl0]; split <;> omega
+  have h1 : last ≤ base.top + c.maxIGap := by rw [← hl1]; split <;> omega
+  have h := cvLoop_rows c base.bottom base.top lag0 last h1 h0 (last - lag0).toNat lag0 lag0 base []
+    (by omega) (Int.le_refl _) (Int.le_refl _) rfl (Int.le_refl _) (by simp)
+  simp only [] at h
+  generalize cvLoop c (last - lag0).toNat lag0 lag0 base [] = r at hp h
+  obtain ⟨pos, lag, b, out⟩ := r
+  simp only [] at h hp
+  obtain ⟨hpos, hl0', hlp, htop, hbot, hout⟩ := h
+  simp only [List.reverse_cons, List.mem_append, List.mem_reverse, List.mem_singleton] at hp
+  rcases hp with e | e
+  · exact hout p e
+  · subst e
+    split
+    · simp only []
+      rename_i hc
+      -- the final cut: `pos = max lag0 last`, so `lag ≤ pos - maxIGap ≤ top`
+      refine ⟨hbot, ?_⟩
+      omega
+    · exact ⟨hbot, by omega⟩
+
+theorem clip_rows (tr : Trap) (a b : Int) : tr.bottom ≤ (clip tr a b).bottom ∧ (clip tr a b).top ≤ tr.top := by
+  unfold clip
+  simp only []
+  constructor <;> split <;> omega
+
+theorem ctLoop_rows (c : Cfg) (base : Trap) :
+    ∀ (n : Nat) (pos lag lagClip : Int) (out : List Trap),
+      (∀ p ∈ out, base.bottom ≤ p.bottom ∧ p.top ≤ base.top) →
+      ∀ p ∈ (ctLoop c n pos lag lagClip base out).2.2.2, base.bottom ≤ p.bottom ∧ p.top ≤ base.top := by
+  intro n
+  induction n with
+  | zero => intro pos lag lagClip out ho; exact ho
+  | succ n ih =>
+    intro pos lag lagClip out ho
+    unfold ctLoop
+    split
+    · split
+      · split
+        · apply ih
+          intro p hp
+          rcases List.mem_cons.mp hp with e | e
+          · subst e; exact clip_rows base _ _
+          · exact ho p e
+        · exact ih _ _ _ _ ho
+      · exact ih _ _ _ _ ho
+    · exact ih _ _ _ _ ho
+
+theorem clipTrap1_rows (c : Cfg) (base : Trap) :
+    ∀ p ∈ clipTrap1 c base, base.bottom ≤ p.bottom ∧ p.top ≤ base.top := by
+  intro p hp
+  unfold clipTrap1 at hp
+  split at hp
+  · simp only [List.mem_singleton] at hp
+    subst hp
+    exact ⟨Int.le_refl _, Int.le_refl _⟩
+  · simp only [] at hp
+    generalize hl0 : (if base.bottom - base.right - c.maxIGap + 1 < 0 then (0 : Int)
+      else base.bottom - base.right - c.maxIGap + 1) = lag0 at hp
+    generalize hl1 : (if base.top - base.left + c.maxIGap > c.tlen then c.tlen
+      else base.top - base.left + c.maxIGap) = last at hp
+    have h := ctLoop_rows c base (last - lag0).toNat lag0 lag0 (base.bottom - base.right) [] (by simp)
+    generalize ctLoop c (last - lag0).toNat lag0 lag0 (base.bottom - base.right) base [] = r at hp h
+    obtain ⟨pos, lag, lagClip, out⟩ := r
+    simp only [List.reverse_cons, List.mem_append, List.mem_reverse, List.mem_singleton] at hp
+    rcases hp with e | e
+    · exact h p e
+    · subst e
+      exact clip_rows base _ _
+
+/-- **neither clipping pass ever grows a trapezoid**: every trapezoid of the clipped list comes from
+    a trapezoid of the merged list whose query rows and diagonal range contain its own — for
+    arbitrary letters (runs of `N` anywhere), `maxIGap ≥ 1` -/
+theorem finalList_within (c : Cfg) (hg : 1 ≤ c.maxIGap) (s : St) :
+    ∀ p ∈ finalList c s, ∃ t, (t ∈ s.active ∨ t ∈ s.done) ∧
+      t.bottom ≤ p.bottom ∧ p.top ≤ t.top ∧ t.left ≤ p.left ∧ p.right ≤ t.right := by
+  intro p hp
+  unfold finalList clipTrapezoids clipVertical at hp
+  obtain ⟨m, hm, hpm⟩ := List.mem_flatMap.mp hp
+  obtain ⟨t, ht, hmt⟩ := List.mem_flatMap.mp hm
+  have d1 := clipVertical1_diag c t m hmt
+  have d2 := clipTrap1_diag c m p hpm
+  have r1 := clipVertical1_rows c hg t m hmt
+  have r2 := clipTrap1_rows c m p hpm
+  refine ⟨t, ?_, by omega, by omega, by omega, by omega⟩
+  simp only [List.mem_append, List.mem_reverse] at ht
+  exact ht
+
 /-! ### the final sort -/
 
 theorem mem_insertByBottom (x : Trap) : ∀ (l : List Trap) (y : Trap), y ∈ insertByBottom x l ↔ y = x ∨ y ∈ l := by
